@@ -22,11 +22,10 @@ type Book struct {
 	shardI    int
 	shardN    int
 	distinct  map[[16]byte]struct{}
-	sampleAt  int
 }
 
 func NewBook(r *vrep.Result) *Book {
-	b := &Book{R: r, deadline: vrep.Deadline(), distinct: map[[16]byte]struct{}{}, sampleAt: 1}
+	b := &Book{R: r, deadline: vrep.Deadline(), distinct: map[[16]byte]struct{}{}}
 	b.shardI, b.shardN = vrep.Shard()
 	return b
 }
@@ -50,7 +49,7 @@ func (b *Book) Over() bool {
 
 func (b *Book) Capped() bool { return b.capped }
 
-// Distinct records a distinct non-trivial case; a few of them (geometrically spaced) become samples.
+// Distinct records a distinct non-trivial case; a few of them become samples.
 func (b *Book) Distinct(sample any, key ...any) {
 	h := sha256.Sum256([]byte(fmt.Sprint(key...)))
 	var k [16]byte
@@ -59,9 +58,10 @@ func (b *Book) Distinct(sample any, key ...any) {
 		return
 	}
 	b.distinct[k] = struct{}{}
-	if len(b.distinct) == b.sampleAt {
+	// samples: the first worker only, two per part (the 2nd and the 40th distinct case), so that the merged
+	// evidence shows cases of every part
+	if b.shardI == 0 && (len(b.distinct) == 2 || len(b.distinct) == 40) {
 		b.R.Sample(sample)
-		b.sampleAt = b.sampleAt*7 + 3
 	}
 }
 
